@@ -155,6 +155,24 @@ def cases(ctx):
             blocks.append([a, _data_runs(rng, n)])
             prev_end = a + n
         out.append({"copier": copier, "blocks": blocks})
+    # 4. rewrite histories: a small pool of overlapping / adjacent blocks written again and again (the same bytes at the
+    #    same address after something else touched them, the original put back after a hook): the last write wins
+    for _ in range(150 if tier == "quick" else 5000):
+        copier = rng.random() < 0.3
+        base = rng.choice([0, 0x10, 0x1F8, 0x7FF0, rng.randrange(0, 0x3000)])
+        pool = []
+        for _i in range(rng.randint(2, 4)):
+            n = rng.randint(1, 12)
+            pool.append([base + rng.randrange(0, 10), _data_runs(rng, n)])
+        if rng.random() < 0.5:       # a block right behind another one, and another version of it
+            a0, r0 = pool[0]
+            n0 = sum(c for _, c in r0)
+            pool.append([a0 + n0, _data_runs(rng, rng.randint(1, 6))])
+            pool.append([a0 + n0, _data_runs(rng, rng.randint(1, 6))])
+        blocks = [list(rng.choice(pool)) for _i in range(rng.randint(3, 7))]
+        if rng.random() < 0.6 and len(blocks) >= 3:
+            blocks[-1] = list(blocks[0])          # the first block verbatim again at the end
+        out.append({"copier": copier, "blocks": blocks})
     return out
 
 
